@@ -136,6 +136,7 @@ class Summariser:
                 continue
             out.add(self.path_key(p))
         out.discard(("infeasible",))
+        out = merge_dont_care(out)
         self.busy.discard(fn.id)
         self.cur_fn = saved_fn
         res = (fn.argc, frozenset(out))
@@ -173,6 +174,7 @@ class Summariser:
                 self.upenv = caps
                 out.add(self.path_key(p))
             out.discard(("infeasible",))
+            out = merge_dont_care(out)
             txt = repr(sorted(map(repr, out)))
             self._mentions_ignored = "ignored-element" in txt
             r = hashlib.sha1(txt.encode()).hexdigest()
@@ -194,7 +196,7 @@ class Summariser:
         raw = []
         for e in p.events:
             if e[0] == "call":
-                if self.is_pure(e[1]):
+                if self.is_pure(devirt(e[1])):
                     continue
                 raw.append(e)
             elif e[0] in ("write", "assert", "setdiscr"):
@@ -236,8 +238,43 @@ class Summariser:
             k = self.cond(c)
             if k is not None:
                 conds.add(k)
+        # when, relative to the effects of this path, each condition was evaluated (two tests of `v.len()` separated by a
+        # push are tests of different values and must not be combined)
+        rawset = {id(e) for e in raw}
+        epoch_of = {}
+        before = []          # root sets of the effects seen so far (None: relevant to everything)
+        for e in p.events:
+            if id(e) in rawset:
+                self.upenv = upenv
+                if e[0] != "call":
+                    before.append(None)
+                elif callee_is(e[1], "DerefMut::deref_mut", "Deref::deref", "Vec::as_mut_slice", "Vec::as_slice", "AsMut::as_mut", "AsRef::as_ref", "BorrowMut::borrow_mut", "Borrow::borrow") and \
+                        (e[1][2] or "").startswith(("<std::vec::Vec<", "std::vec::Vec::<", "<std::boxed::Box<", "<[", "<&")):
+                    pass          # handing out a reference to a std container changes nothing; what is done through it is an effect of its own
+                elif isinstance(e[1][2], str) and (e[1][2].startswith("<[") or e[1][2].startswith("core::slice::<impl [") or e[1][2].startswith("std::slice::<impl [")) and not e[1][2].startswith("<[closure"):
+                    before.append(("slice", roots_of(self.ex(e[1]))))      # a method of a slice `[T]`: cannot change any length, only elements
+                else:
+                    before.append(roots_of(self.ex(e[1])))
+            elif e[0] == "cond":
+                self.upenv = upenv
+                k = self.cond((e[1], e[2], None))
+                if k is not None:
+                    tr = roots_of(k)
+                    only_len = k[0] == "rel" and all(stable_term(t) or (isinstance(t, tuple) and t and t[0] == "len") for t in k[2:4])
+                    ep = 0
+                    for b in before:
+                        if b is None:
+                            ep += 1
+                        elif isinstance(b, tuple) and b and b[0] == "slice":
+                            if not only_len and (b[1] & tr):
+                                ep += 1
+                        elif b & tr:
+                            ep += 1
+                    epoch_of.setdefault(k, set()).add(ep)
         conds = consolidate_discr(conds)
-        if conds is None or contradictory(conds):
+        if conds is not None:
+            conds = int_bounds(conds, epoch_of)
+        if conds is None or contradictory(conds, epoch_of):
             return ("infeasible",)
         end = "loop" if p.end.startswith("loop:") else p.end
         self.upenv = upenv
@@ -427,6 +464,7 @@ class Summariser:
         if t == "fnitem":
             return ("fnitem", e[3] or e[1])
         if t == "call":
+            e = devirt(e)
             if e[1] is None:
                 return ("callv", tuple(self.ex(a) for a in e[3]), self.order.get(e[4]))
             r = self.rep(e)
@@ -438,6 +476,10 @@ class Summariser:
                 return self.ex(e[3][0])      # a copy of a plain value is that value
             if len(e[3]) == 1 and callee_is(e, "Vec::len", "[T]::len"):
                 return ("len", self.ex(e[3][0]))
+            if len(e[3]) == 1 and e[1] in ("std::convert::Into::into", "std::convert::From::from"):
+                from .canon import identity_conversion
+                if identity_conversion(e[2] or ""):
+                    return self.ex(e[3][0])       # <A as Into<A>>::into (known only once a generic helper's parameters are instantiated)
             if len(e[3]) == 1 and (callee_is(e, *NUMCONV) or callee_is(e, "Into::into", "From::from")):
                 return ("conv", self.ex(e[3][0]))
             args = tuple(self.ex(a) for a in e[3])
@@ -493,6 +535,14 @@ class Summariser:
             # (a +ovf b).0 in builds with overflow checks is a + b
             if b[0] == "binop" and b[1].endswith("WithOverflow") and e[2] == 0:
                 return ("binop", b[1][:-len("WithOverflow")], self.ex(b[2]), self.ex(b[3]))
+            sb = sym.strip_refs(b)
+            if isinstance(sb, tuple) and sb[:2] == ("agg", "adt") and isinstance(e[2], str):
+                # a named field of a struct value built on this path (a helper constructed it, the caller takes it apart)
+                adt = self.F.adts.get(sb[2].rsplit("::", 1)[0])
+                if adt and adt.get("kind") == "struct" and len(adt.get("variants", ())) == 1:
+                    names = [fl.get("name") for fl in adt["variants"][0].get("fields", ())]
+                    if e[2] in names and len(names) == len(sb[3]):
+                        return self.ex(sb[3][names.index(e[2])])
             return ("field", self.ex(b), e[2], e[3])
         if t == "binop":
             a, b = self.ex(e[2]), self.ex(e[3])
@@ -528,6 +578,17 @@ class Summariser:
 
 
 _WILD = re.compile(r"(::)?<_(?:, _)*>")
+
+
+def devirt(e):
+    """`<fn item as FnOnce/FnMut/Fn>::call*(f, (a, b, ..))` with f a function item is the direct call f(a, b, ..) (what a generic
+    helper taking `impl FnOnce` becomes once a function path such as `Into::into` is passed to it and the helper is seen through)"""
+    if e[0] == "call" and e[1] in ("std::ops::FnOnce::call_once", "std::ops::FnMut::call_mut", "std::ops::Fn::call") and len(e[3]) == 2:
+        f = sym.strip_refs(e[3][0])
+        a = e[3][1]
+        if isinstance(f, tuple) and f and f[0] == "fnitem" and isinstance(a, tuple) and a[:2] == ("agg", "tuple"):
+            return ("call", f[1], f[2] if len(f) > 2 else None, tuple(a[3]), e[4])
+    return e
 
 
 def concrete_instantiation(full, fid):
@@ -585,12 +646,199 @@ def consolidate_discr(conds):
     return rest
 
 
-def contradictory(conds):
-    """two oriented relations over the same pair of expressions that cannot hold together (a < b with b <= a, a == b with a != b, ...)"""
+def merge_dont_care(keys):
+    """Two paths with the same effects, result and exit whose conditions differ in exactly one test, taken one way on the one
+    and the other way on the other, are one path without that test: a value that was examined (say by an eagerly evaluated
+    `.or(..)`) although nothing depends on it.  Applied until nothing changes, this makes the set of paths independent of
+    whether a pure computation is evaluated eagerly or only where it is needed."""
+    import ast
+    keys = set(keys)
+    if len(keys) < 2 or len(keys) > 400:
+        return keys
+    parsed = {}
+    def conds_of(k):
+        r = parsed.get(k)
+        if r is None:
+            try:
+                r = frozenset(ast.literal_eval(c) for c in k[0])
+            except Exception:
+                r = None
+            parsed[k] = r
+        return r
+    # which discriminants are only ever compared with exactly two values (and never by exclusion)
+    seen, excl = {}, set()
+    for k in keys:
+        cs = conds_of(k)
+        if cs is None:
+            return keys
+        for c in cs:
+            if c[0] == "discr":
+                seen.setdefault(c[1], set()).add(c[2])
+            elif c[0] == "discr-not":
+                excl.add(c[1])
+    def is_int(x):
+        return isinstance(x, tuple) and len(x) == 2 and x[0] == "int" and isinstance(x[1], int)
+    def eq_(k, t):
+        x, y = sorted([("int", k), t], key=repr)
+        return ("rel", "Eq", x, y)
+    def complement(c):
+        if c[0] == "rel" and is_int(c[2]) != is_int(c[3]) and c[1] in ("Le", "Eq"):
+            # the forms int_bounds() leaves: k <= t, t <= k, t == k (a length is never negative)
+            if c[1] == "Le" and is_int(c[2]):
+                k, t = c[2][1], c[3]
+                if isinstance(t, tuple) and t and t[0] == "len" and k == 1:
+                    return eq_(0, t)
+                return ("rel", "Le", t, ("int", k - 1))
+            if c[1] == "Le":
+                return ("rel", "Le", ("int", c[3][1] + 1), c[2])
+            k, t = (c[2][1], c[3]) if is_int(c[2]) else (c[3][1], c[2])
+            if isinstance(t, tuple) and t and t[0] == "len" and k == 0:
+                return ("rel", "Le", ("int", 1), t)
+        if c[0] == "rel":
+            if c[1] == "Lt":
+                return ("rel", "Le", c[3], c[2])
+            if c[1] == "Le":
+                return ("rel", "Lt", c[3], c[2])
+            if c[1] == "Eq":
+                return ("rel", "Ne", c[2], c[3])
+            if c[1] == "Ne":
+                return ("rel", "Eq", c[2], c[3])
+        if c[0] == "discr" and c[1] not in excl and len(seen.get(c[1], ())) == 2:
+            other = [v for v in seen[c[1]] if v != c[2]]
+            return ("discr", c[1], other[0])
+        return None
+    groups = {}
+    for k in keys:
+        groups.setdefault(k[1:], set()).add(conds_of(k))
+    out = set()
+    for rest, sets in groups.items():
+        changed = True
+        while changed and len(sets) > 1:
+            changed = False
+            for a in list(sets):
+                if a not in sets:
+                    continue
+                for c in a:
+                    cc = complement(c)
+                    if cc is None:
+                        continue
+                    b = (a - {c}) | {cc}
+                    if b in sets and b != a:
+                        sets.discard(a)
+                        sets.discard(b)
+                        sets.add(a - {c})
+                        changed = True
+                        break
+        for cs in sets:
+            out.add((tuple(sorted(map(repr, cs))),) + rest)
+    return out
+
+
+STABLE_NODES = ("param", "cparam", "int", "const", "conv", "cast", "binop", "unop")
+
+
+def stable_term(t):
+    """a value that cannot change while the path runs: built from by-value parameters, constants and results of numbered
+    (effectful, hence unique) calls; anything read through a place (`len`, fields, pure accessor calls) may be read again
+    later with a different result"""
+    if not isinstance(t, tuple) or not t:
+        return True
+    if t[0] == "call":
+        return len(t) > 3 and t[3] is not None
+    if t[0] not in STABLE_NODES:
+        return False
+    return all(stable_term(x) for x in t[1:] if isinstance(x, tuple))
+
+
+def roots_of(t, out=None):
+    """what a normalised term is read from: its parameter / captured-variable leaves and every call it contains (a local
+    built by a call is identified by that call); an effect can change the value of a term only through a shared root"""
+    top = out is None
+    if top:
+        out = set()
+    if isinstance(t, tuple) and t:
+        if t[0] in ("param", "cparam", "upvar"):
+            out.add(repr(t[:2]))
+        else:
+            if t[0] in ("call", "callv"):
+                out.add(repr(t))
+            for x in t[1:]:
+                if isinstance(x, tuple):
+                    roots_of(x, out)
+    return frozenset(out) if top else None
+
+
+def same_time(c, epoch_of, *terms):
+    """key that two conditions must share to be combined: None for conditions over stable terms, else the single epoch at
+    which the condition was evaluated ('?' + unique when unknown: never combined)"""
+    if all(stable_term(t) for t in terms):
+        return None
+    eps = epoch_of.get(c) if epoch_of is not None else None
+    if eps is None or len(eps) != 1:
+        return ("?", repr(c))
+    return next(iter(eps))
+
+
+def int_bounds(conds, epoch_of):
+    """comparisons of one term with integer constants (evaluated at the same time) are replaced by the tightest bounds they
+    imply: `3 <= n` makes `2 <= n` redundant, `n < 2` with `3 <= n` is infeasible (None), `n < 1` for a length is `n == 0`"""
+    groups = {}
+    rest = set()
+    for c in conds:
+        if c[0] == "rel" and c[1] in ("Lt", "Le", "Eq", "Ne"):
+            a, b = c[2], c[3]
+            ia = isinstance(a, tuple) and len(a) == 2 and a[0] == "int" and isinstance(a[1], int)
+            ib = isinstance(b, tuple) and len(b) == 2 and b[0] == "int" and isinstance(b[1], int)
+            if ia != ib:
+                term, k = (b, a[1]) if ia else (a, b[1])
+                g = groups.setdefault((repr(term), same_time(c, epoch_of, term)), {"term": term, "L": 0 if term[0] == "len" else None, "U": None, "ne": set()})
+                lo = hi = None
+                if c[1] == "Eq":
+                    lo = hi = k
+                elif c[1] == "Ne":
+                    g["ne"].add(k)
+                elif ia:
+                    lo = k if c[1] == "Le" else k + 1
+                else:
+                    hi = k if c[1] == "Le" else k - 1
+                if lo is not None:
+                    g["L"] = lo if g["L"] is None else max(g["L"], lo)
+                if hi is not None:
+                    g["U"] = hi if g["U"] is None else min(g["U"], hi)
+                continue
+        rest.add(c)
+    for g in groups.values():
+        L, U, term = g["L"], g["U"], g["term"]
+        ne = set(g["ne"])
+        while L is not None and L in ne:
+            L += 1
+        while U is not None and U in ne:
+            U -= 1
+        if L is not None and U is not None and L > U:
+            return None
+        ne = {n for n in ne if (L is None or n > L) and (U is None or n < U)}
+        if L is not None and L == U:
+            x, y = sorted([("int", L), term], key=repr)
+            rest.add(("rel", "Eq", x, y))
+            continue
+        if L is not None and not (term[0] == "len" and L <= 0):
+            rest.add(("rel", "Le", ("int", L), term))
+        if U is not None:
+            rest.add(("rel", "Le", term, ("int", U)))
+        for n in ne:
+            x, y = sorted([("int", n), term], key=repr)
+            rest.add(("rel", "Ne", x, y))
+    return rest
+
+
+def contradictory(conds, epoch_of=None):
+    """two oriented relations over the same pair of expressions (evaluated at the same time) that cannot hold together
+    (a < b with b <= a, a == b with a != b, ...)"""
     rel = {}
     for c in conds:
         if c[0] == "rel":
-            rel.setdefault((repr(c[2]), repr(c[3])), set()).add(c[1])
+            t = same_time(c, epoch_of, c[2], c[3])
+            rel.setdefault((repr(c[2]) + "@%r" % (t,), repr(c[3]) + "@%r" % (t,)), set()).add(c[1])
     for (a, b), ops in rel.items():
         if "Eq" in ops and "Ne" in ops:
             return True
